@@ -86,6 +86,12 @@ CLAIMED = {
          'from the Recommendation), encode(decode(c)) = c; the sixteen array kernels use exactly the grid index expressions (negate before scaling, 0x7F sign mask); IMA / MS ADPCM / OKI tables equal '
          'the published ones; the IMA step index clamp returns a value inside the table and scalar step-table indices are proven in range. IEEE serialiser arithmetic and sample-exact ADPCM decoding are not decided.',
          'constant-table extraction (clang-folded initialisers) compared with independent references; required-expression facts; interval analysis for the clamp'),
+ 'C02': ('DESIGN.md §4 C02',
+         'For every float/double <-> integer kernel (pcm.c, common.c, float32.c, double64.c, ulaw.c, alaw.c): the normalised / un-normalised scale constants, the clip thresholds and the saturation '
+         'bytes (value and byte order) equal closed formulas in the encoded width; constants are selected by the norm_float / norm_double / add_clipping / float_int_mult / scale_int_float switch of '
+         'the right type and sf_command writes exactly those switches; no kernel truncates (all round through psf_lrint/psf_lrintf). Numeric results of individual values and the int<->int lane '
+         'moves are not decided.',
+         'AST fact extraction (folded constants, branch conditions, stores) checked against width formulas; partial evaluation for command wiring'),
 }
 REASONS = {}
 DEFAULT_REASON = 'check not built yet (work in progress); see DESIGN.md'
